@@ -381,6 +381,16 @@ pub struct Globals {
     pub mutators_running: std::sync::atomic::AtomicBool,
     /// human-readable description of that call (for the watchdog's verdict)
     pub alloc_call_desc: Mutex<String>,
+    /// pseudo option `__vm_packets`: during every pause the binding adds work packets of its own
+    /// (through `memory_manager::add_work_packet`) to later stop-the-world stages, incl. the last one
+    pub vm_packets: std::sync::atomic::AtomicBool,
+    pub vm_packets_added: AtomicU64,
+    pub vm_packets_run: AtomicU64,
+    /// identity (address of the shared part) -> ordinal of every worker ever handed to spawn_gc_thread
+    pub worker_idents: Mutex<Vec<(usize, usize)>>,
+    pub worker_ident_violation: Mutex<Option<String>>,
+    /// racing user GC requests (C11): number of helper threads currently inside block_for_gc
+    pub helpers_blocked: AtomicUsize,
 }
 
 fn new_roots<const N: usize>() -> Box<[AtomicUsize; N]> {
@@ -439,6 +449,12 @@ pub fn g() -> &'static Globals {
         fork_requested_in_gc: AtomicU64::new(0),
         mutators_running: std::sync::atomic::AtomicBool::new(true),
         alloc_call_desc: Mutex::new(String::new()),
+        vm_packets: std::sync::atomic::AtomicBool::new(false),
+        vm_packets_added: AtomicU64::new(0),
+        vm_packets_run: AtomicU64::new(0),
+        worker_idents: Mutex::new(Vec::new()),
+        worker_ident_violation: Mutex::new(None),
+        helpers_blocked: AtomicUsize::new(0),
     })
 }
 
@@ -706,6 +722,24 @@ impl<const V: usize> Scanning<ShadowVM<V>> for ShadowVM<V> {
         let gl = g();
         let slots: Vec<SimpleSlot> = (0..GLOBAL_ROOTS).map(|i| SimpleSlot::from_address(Address::from_ref(&gl.global_roots[i]))).collect();
         factory.create_process_roots_work(slots);
+        if gl.vm_packets.load(Ordering::Relaxed) {
+            // a binding may add packets of its own to later stages of the running collection (C15):
+            // each must be executed exactly once before the mutators resume
+            use mmtk::scheduler::WorkBucketStage as S;
+            let n = gl.stop_calls.load(Ordering::SeqCst);
+            let mut stages = vec![S::Final];
+            if n % 2 == 1 {
+                stages.push(S::Release);
+            }
+            if n % 3 == 0 {
+                stages.push(S::Closure);
+                stages.push(S::Final);
+            }
+            for st in stages {
+                gl.vm_packets_added.fetch_add(1, Ordering::SeqCst);
+                mmtk::memory_manager::add_work_packet(mmtk_ref::<V>(), st, VmPacket);
+            }
+        }
     }
 
     fn supports_return_barrier() -> bool {
@@ -724,6 +758,20 @@ impl<const V: usize> Scanning<ShadowVM<V>> for ShadowVM<V> {
     fn forward_weak_refs(worker: &mut mmtk::scheduler::GCWorker<ShadowVM<V>>, tracer_context: impl ObjectTracerContext<ShadowVM<V>>) {
         super::weak::forward_weak_refs::<V>(worker, tracer_context)
     }
+}
+
+/// A work packet owned by the binding (see `__vm_packets`).
+pub struct VmPacket;
+
+impl<const V: usize> mmtk::scheduler::GCWork<ShadowVM<V>> for VmPacket {
+    fn do_work(&mut self, _worker: &mut mmtk::scheduler::GCWorker<ShadowVM<V>>, _mmtk: &'static MMTK<ShadowVM<V>>) {
+        g().vm_packets_run.fetch_add(1, Ordering::SeqCst);
+    }
+}
+
+thread_local! {
+    /// set in helper threads that issue racing user GC requests on behalf of idle mutators (C11)
+    pub static IS_GC_REQUEST_HELPER: std::cell::Cell<bool> = const { std::cell::Cell::new(false) };
 }
 
 // ---------------------------------------------------------------- Collection
@@ -779,6 +827,18 @@ impl<const V: usize> Collection<ShadowVM<V>> for ShadowVM<V> {
         let gl = g();
         gl.block_calls.fetch_add(1, Ordering::SeqCst);
         let m = mutator_index(tls.0);
+        if IS_GC_REQUEST_HELPER.with(|h| h.get()) {
+            // not the driver thread: just wait for the end of the pause, without telling the
+            // collector that the (still running) driver has stopped
+            let mut st = gl.sync.lock().unwrap();
+            let entry = st.resume_epoch;
+            gl.helpers_blocked.fetch_add(1, Ordering::SeqCst);
+            while st.resume_epoch == entry {
+                st = gl.cv.wait(st).unwrap();
+            }
+            gl.helpers_blocked.fetch_sub(1, Ordering::SeqCst);
+            return;
+        }
         ev(Ev::BlockEnter { m });
         let mut st = gl.sync.lock().unwrap();
         let entry = st.resume_epoch;
@@ -801,6 +861,20 @@ impl<const V: usize> Collection<ShadowVM<V>> for ShadowVM<V> {
         match ctx {
             GCThreadContext::Worker(worker) => {
                 let ordinal = worker.ordinal;
+                {
+                    // C16: a worker handed back after a fork is the same worker: same shared part, same ordinal
+                    let ident = std::sync::Arc::as_ptr(&worker.shared) as usize;
+                    let mut ids = gl.worker_idents.lock().unwrap();
+                    if let Some((_, o)) = ids.iter().find(|(i, _)| *i == ident) {
+                        if *o != ordinal {
+                            *gl.worker_ident_violation.lock().unwrap() = Some(format!("the worker whose shared state is at {:#x} was created with ordinal {} and respawned with ordinal {}", ident, o, ordinal));
+                        }
+                    } else if let Some((i, _)) = ids.iter().find(|(_, o)| *o == ordinal) {
+                        *gl.worker_ident_violation.lock().unwrap() = Some(format!("ordinal {} was created with the shared state at {:#x} and respawned with the shared state at {:#x}", ordinal, i, ident));
+                    } else {
+                        ids.push((ident, ordinal));
+                    }
+                }
                 gl.spawned.fetch_add(1, Ordering::SeqCst);
                 ev(Ev::SpawnWorker { ordinal });
                 let h = std::thread::Builder::new()
